@@ -493,6 +493,7 @@ type c17URLExpr struct {
 	Pattern string // regex text as DuckDB sees it
 	Replace bool   // REGEXP_REPLACE (true) or REGEXP_EXTRACT
 	Fires   bool   // the rewrite's trigger condition holds
+	Unsure  bool   // trigger not modelled ('\\1' replacement: rewritten today, not a group reference for DuckDB)
 }
 
 const (
@@ -530,6 +531,7 @@ func c17GenURLExpr(t *rapid.T) c17URLExpr {
 	}
 	fn = rapid.SampledFrom([]string{fn, fn, strings.ToLower(fn)}).Draw(t, "urlfn")
 	var third string
+	dbl := false
 	if replace {
 		third = `'\1'`
 		if rapid.IntRange(0, 9).Draw(t, "dbl") == 0 {
@@ -537,12 +539,13 @@ func c17GenURLExpr(t *rapid.T) c17URLExpr {
 				verifkit.CountExcluded(c17fURLBackslash)
 			} else {
 				third = `'\\1'` // DuckDB: a literal backslash followed by 1; Arc: still "group 1"
+				dbl = true
 			}
 		}
 	} else {
 		third = "1"
 	}
-	e := c17URLExpr{Pattern: pat, Replace: replace}
+	e := c17URLExpr{Pattern: pat, Replace: replace, Unsure: dbl}
 	e.Text = fn + c17Sp(t) + "(" + c17Sp(t) + "u" + c17Sp(t) + "," + c17Sp(t) + "'" + pat + "'" + c17Sp(t) + "," + c17Sp(t) + third + c17Sp(t) + ")"
 	e.Fires = strings.Contains(strings.ToLower(pat), "https") && (strings.Contains(pat, "[^/]") || strings.Contains(pat, `[^\/]`))
 	return e
@@ -633,7 +636,7 @@ func TestVerifC17_URLDomain(t *testing.T) {
 		}
 		c17Record("url", orig, rew, rows)
 		for _, e := range exprs {
-			if e.Fires != strings.Contains(rew, "split_part") && k == 1 {
+			if e.Fires != strings.Contains(rew, "split_part") && k == 1 && !e.Unsure {
 				t.Fatalf("HARNESS trigger model out of date: fires=%v\n%s\n%s", e.Fires, orig, rew)
 			}
 		}
